@@ -6,6 +6,7 @@ import (
 	"crypto/sha256"
 	"encoding/hex"
 	"fmt"
+	"math/big"
 	"os"
 	"path/filepath"
 	"sort"
@@ -17,6 +18,7 @@ import (
 	"verifmon/internal/evid"
 	"verifmon/internal/gen"
 	"verifmon/internal/proc"
+	"verifmon/internal/ref"
 )
 
 type delayProfile struct {
@@ -109,6 +111,7 @@ func runC13(o *cli.Opts, run *evid.Run) {
 	run.Require("valid requests proved concurrently", run.ClassTally("insertion/valid").Accepted+run.ClassTally("deletion/valid").Accepted, 8)
 	run.Require("server-side hook events observed", run.GetInt("server_events"), 50)
 	run.Require("distinct interleaving signatures", run.GetInt("distinct_interleavings"), 4)
+	run.Require("same-hash twin pairs sent together", run.GetInt("twin_pairs"), 2)
 }
 
 func c13Mode(o *cli.Opts, run *evid.Run, bin, mode string) {
@@ -199,6 +202,31 @@ func c13Round(o *cli.Opts, run *evid.Run, ks *keyset, srv *proc.Server, mode, rk
 			reqs[i] = methodRequest(r, ks)
 		}
 		offsets[i] = time.Duration(r.Intn(30)) * time.Millisecond
+	}
+	// twins: a valid request and an invalid one with the SAME public fields and input hash (the
+	// Merkle proofs are not hashed), released together: each must still get its own answer
+	if n >= 2 && r.Intn(2) == 0 {
+		doc, h := validDoc(r, ks)
+		reqs[0] = newReq("valid", "POST", ref.MustJSON(doc), expectValid, h)
+		tw := map[string]any{}
+		for k, v := range doc {
+			tw[k] = v
+		}
+		proofs := append([]any{}, doc["merkleProofs"].([]any)...)
+		slot := r.Intn(len(proofs))
+		inner := append([]any{}, proofs[slot].([]any)...)
+		lvl := r.Intn(len(inner))
+		v, _ := new(big.Int).SetString(inner[lvl].(string), 0)
+		inner[lvl] = ref.Num(new(big.Int).Add(v, big.NewInt(1)), "hex")
+		proofs[slot] = inner
+		tw["merkleProofs"] = proofs
+		// in deletion mode a padding slot ignores its path: make sure the twin really is invalid
+		reqs[1] = newReq("invalid-batch/twin-same-hash", "POST", ref.MustJSON(tw), expectProving, nil)
+		if ks.mode == "deletion" && !twinInvalid(ks, tw) {
+			reqs[1] = newReq("valid", "POST", ref.MustJSON(tw), expectValid, h)
+		}
+		offsets[0], offsets[1] = offsets[0], offsets[0]
+		run.Add("twin_pairs", 1)
 	}
 	evBefore := len(readEvents(srv.EventLog))
 	resps := make([]response, n)
@@ -303,6 +331,19 @@ func c13Round(o *cli.Opts, run *evid.Run, ks *keyset, srv *proc.Server, mode, rk
 			run.Add("alone_comparisons", 1)
 		}
 	}
+}
+
+// twinInvalid decides with the reference specification whether a deletion document is an invalid batch.
+func twinInvalid(ks *keyset, doc map[string]any) bool {
+	p, err := ref.ReadDel(ref.MustJSON(doc))
+	if err != nil {
+		return true
+	}
+	idx := make([]*big.Int, len(p.Indices))
+	for i, v := range p.Indices {
+		idx[i] = new(big.Int).SetUint64(uint64(v))
+	}
+	return !ref.ValidDeletion(ref.H2, ref.R, ks.d, idx, p.Pre, p.Post, p.Ids, p.Proofs)
 }
 
 func padHex(s string) string {
